@@ -1,4 +1,5 @@
 """C13 - TT-ANOVA cores encode exactly the additive (plus pair) model estimated from the data; functional variant."""
+import os
 import math
 import itertools
 import numpy as np
@@ -36,7 +37,21 @@ RULE = ("Hypothesis draws sample sets over d 2..4(5) modes with 1..4(5) index va
         "non-contiguous) or nested list; functional variant X_trn float64 / float32 (C, F, strided) or nested list, y_trn as above. "
         "The reference is computed in binary64 from the values the argument denotes (float(v) per element, exact), with the "
         "tolerances of the float64 spelling. y family `offset`: 1000 / -250 / 1e6 / 100 + 0.1 N(0,1) (offset >> variation), also as "
-        "the additive function of the full-grid sub.")
+        "the additive function of the full-grid sub. "
+        "history: ONE ANOVA object (order 1 / 2, d 2..4(5)) constructed on data set 0 and then driven through a drawn sequence of "
+        "1..6(7) operations + a final cores() and __call__: build(I, y) on one of 2..3(4) data sets (same labels and sizes with other "
+        "samples / the same samples permuted / only the first 30-80 % of the samples / other mode sizes / other d / the same data "
+        "again), load(file) of the model that another object (itself asked for cores before, or not) saved for such a data set, "
+        "cores(r, noise[, only_near, rel_noise]) with r and noise drawn per call (positional / keyword / default spelling; "
+        "only_near=True for d = 2 only), __call__ on drawn multi-indices of the current domain, sample(with_square), reads of the "
+        "public arrays f1_arr / f2_arr. After EVERY operation the object is compared with a FRESH object constructed on the "
+        "data last built: d, shapes, domain, dtype, f0, y_max, y_min, f1, f2 equal bit for bit; the operation's own result equals "
+        "the fresh object's result bit for bit when the duck-typed generator is re-positioned identically for both (cores, "
+        "sample), always for __call__ / f1_arr / f2_arr; every cores() result additionally satisfies the statement of the "
+        "property (shape, ranks, values within the order-1 majorant / order-2 bound) for the recomputed model of the data last "
+        "built (also for int seeds, where streams cannot be aligned). func_history: ONE ANOVA_func object asked for coeffs and "
+        "cores(e), e in {default, None, 1e-8, 1e-4, 1e-2, 0.5}, 2..6 times in a drawn order: every answer equals that of a fresh "
+        "object and of anova_func(...) on identical arguments, bit for bit.")
 TOLERANCES = ("f0: 2(m+4) eps mean|y|; f1/f2: the same for the conditional mean + inherited terms; order 1: |dense - model| <= "
               "dense(|C0|+D) - dense(|C0|) + 2K eps dense(|C0|+D), D = 3*noise (40*noise for int seeds) on non-structural entries and the "
               "f-tolerances on structural ones, K = 32(d+sum r+max n); order 2 (no bond rank equal to the cap r): Frobenius error <= "
@@ -59,7 +74,12 @@ ASSUMPTIONS = ["d >= 2, r >= 2 (cores_1 writes column 1 of every core), noise >=
                "are legitimately non-unique); for lamb < 1e-8 on numerically rank-deficient designs without a gap (a handful of cases) "
                "only the consistency of cores, ANOVA_func.coeffs and interpolant is claimed",
                "the eigh floor of truncate (C02) is a stated tolerance of the order-2 route, not a finding",
-               "only_near=True of ANOVA.cores is outside the property text and not exercised",
+               "only_near=True of ANOVA.cores is outside the property text and exercised only for d = 2 (history sub), where it selects "
+               "the same single pair of modes",
+               "histories: only public methods / attributes are used (ANOVA(...), build, load, save, cores, __call__, sample, f1_arr, f2_arr, "
+               "f0, f1, f2, d, shapes, domain, dtype, y_max, y_min; ANOVA_func(...), coeffs, cores); the order of one object is not changed "
+               "(there is no method for it); bit-identity with a fresh object is claimed because both run the same deterministic "
+               "computation on equal arguments in one process (the generator double is re-positioned for both before a compared call)",
                "data arrays of a narrower real or an integer dtype denote the (exactly representable) doubles of their elements; "
                "uint8 index arrays carry labels in 0..255; float16 values are clipped to +-60000 and int32 to +-2e9 before the cast "
                "(by construction, so that every value passed is finite); the additive full-grid claim is asserted up to "
@@ -1097,10 +1117,373 @@ def prop_func(case, ctx):
         ctx.label("truncation_reduced_rank")
 
 
+# ------------------------------------------------------------------------------------------- histories on one object
+
+class HistGen(BoundedGen):
+    """BoundedGen whose stream can be re-positioned (so that the object with a history and a fresh object can be handed the
+    same stream for one call) and that also answers choice(), which ANOVA.sample asks for."""
+
+    def reset(self, seed):
+        self.g = np.random.default_rng(seed)
+
+    def choice(self, a, size=None, replace=True, p=None):
+        return self.g.choice(a, size=size, replace=replace, p=p)
+
+
+HIST_LAYOUTS = ["grid_plus", "grid_plus", "sparse", "sparse", "sparse", "dups", "grid_rep", "explicit", "single"]
+HIST_DERIVED = ["same_labels", "same_labels", "permuted", "head", "other_sizes", "other_sizes", "other_d", "other_d"]
+
+
+@st.composite
+def history_cases(draw, tier):
+    """One ANOVA object with a drawn history: construction on data set 0, then builds on other data sets (same labels / the
+    same samples in another order / the first samples only / other mode sizes / other d), cores() with several ranks and
+    noise spellings, __call__, sample(), reads of the public arrays f1_arr / f2_arr, in a drawn order; the history always
+    ends with cores() and __call__."""
+    big = tier != "quick"
+    order = draw(st.sampled_from([1, 2, 2]))
+    d0 = draw(st.integers(2, 5 if big else 4))
+    n0 = _cap([draw(mode_sizes(big)) for _ in range(d0)], 256 if big else 64)
+    sets = [draw(data_fields(tier, HIST_LAYOUTS, n=n0, m_hi=40 if big else 24))]
+    for j in range(1, draw(st.integers(2, 4 if big else 3))):
+        kind = draw(st.sampled_from(HIST_DERIVED))
+        if kind in ("permuted", "head"):
+            ds = {"derived": kind, "from": draw(st.integers(0, j - 1)), "pseed": draw(gen.seeds), "frac": draw(st.sampled_from([0.3, 0.5, 0.8]))}
+        else:
+            if kind == "same_labels":
+                n = n0
+            elif kind == "other_sizes":
+                n = _cap([draw(mode_sizes(big)) for _ in range(d0)], 256 if big else 64)
+            else:
+                dd = draw(st.sampled_from([x for x in (2, 3, 4, 5) if x != d0 and (big or x <= 4)]))
+                n = _cap([draw(mode_sizes(big)) for _ in range(dd)], 256 if big else 64)
+            ds = draw(data_fields(tier, HIST_LAYOUTS, n=n, m_hi=40 if big else 24))
+            if kind == "same_labels":
+                ds["labels"] = sets[0]["labels"]; ds["labkind"] = sets[0]["labkind"]
+            ds["derived"] = kind
+        sets.append(ds)
+    rs = [2, 2, 3, 4, 5, 12] if order == 1 else [2, 3, 4, 8, 50, 50]
+
+    def cores_op():
+        return {"op": "cores", "r": draw(st.sampled_from(rs)), "noise": draw(st.sampled_from([0.0, 0.0, 1e-10, 1e-3])),
+                "rel": draw(st.sampled_from([None, None, None, 0.0, 1e-9])), "near": draw(st.booleans()),
+                "spell": draw(st.sampled_from(["pos", "kw", "default"]))}
+
+    def call_op():
+        return {"op": "call", "pseed": draw(gen.seeds), "k": draw(st.integers(1, 6))}
+
+    ops = []
+    cur = 0
+    for _ in range(draw(st.integers(1, 7 if big else 6))):
+        what = draw(st.sampled_from(["build", "build", "build", "load", "cores", "cores", "call", "sample", "arr"]))
+        if what in ("build", "load"):                # mostly another data set than the current one, sometimes the same again
+            cur = (cur + draw(st.sampled_from([1, 1, 1, 2, 2, 0]))) % len(sets)
+            ops.append({"op": what, "set": cur})     # load: the model of that data set saved by another object, then A.load(file)
+        elif what == "cores":
+            ops.append(cores_op())
+        elif what == "call":
+            ops.append(call_op())
+        elif what == "sample":
+            ops.append({"op": "sample", "sq": draw(st.booleans())})
+        else:
+            ops.append({"op": "arr"})
+    if not any(o["op"] in ("build", "load") for o in ops):
+        ops.insert(draw(st.integers(0, len(ops))), {"op": "build", "set": draw(st.integers(1, len(sets) - 1))})
+    ops += [cores_op(), call_op()]
+    return {"order": order, "sets": sets, "ops": ops, "gen": draw(st.sampled_from(["uniform", "clipnormal", "extreme", "plus3", "int"])),
+            "gseed": draw(gen.seeds)}
+
+
+def hist_data(sets, j):
+    """(I, y) of data set j as int64 / float64 arrays of the denoted values, and its spelling (idt, ydt)."""
+    ds = sets[j]
+    if ds.get("derived") in ("permuted", "head"):
+        I, y, sp = hist_data(sets, ds["from"])
+        rng = np.random.default_rng(ds["pseed"])
+        if ds["derived"] == "permuted":
+            p = rng.permutation(len(I))
+        else:
+            p = np.arange(max(1, int(math.ceil(ds["frac"] * len(I)))))
+        return I[p], y[p], sp
+    I, y, J, Iarg, yarg = make_data(ds)
+    return I, y, case_dtypes(ds)
+
+
+def same_cores(Y1, Y2):
+    return (isinstance(Y1, list) and isinstance(Y2, list) and len(Y1) == len(Y2)
+            and all(np.shape(a) == np.shape(b) and np.array_equal(a, b) for a, b in zip(Y1, Y2)))
+
+
+def cores_vs_ref(ctx, Y, ref, order, r, bn, what, **kw):
+    """The statement of the property for one cores() result against the recomputed model of the data last built."""
+    n = ref["n"]
+    d = len(n)
+    why = oracle.wellformed(Y, n)
+    ctx.check(why is None, f"{what}: result is not a well-formed TT-tensor with the observed mode sizes of the data last built: {why}",
+              observed=n, got=[list(np.shape(G)) for G in Y] if isinstance(Y, list) else None, **kw)
+    ranks = oracle.ranks_of(Y)
+    if order == 1:
+        ctx.check(ranks == [1] + [r] * (d - 1) + [1], f"{what}: TT-ranks are not all equal to the requested rank", ranks=ranks, r=r, **kw)
+        bound, _ = order1_bound(ref, r, bn)
+        cmp_table(ctx, dense(Y), ref["M"], bound + ref["tolM"],
+                  f"{what}: dense tensor differs from constant + sum of per-mode terms of the data last built", r=r, **kw)
+        return
+    ctx.check(max(ranks) <= r, f"{what}: a TT-rank exceeds the requested rank", ranks=ranks, r=r, **kw)
+    if any(q == r for q in ranks[1:-1]):
+        ctx.label("hist_cap_binds")
+    else:
+        ctx.label("hist_values_checked")
+        order2_values(ctx, Y, ref, r, bn, None, what, **kw)
+
+
+# ANOVA.load after a cores() / f1_arr / f2_arr access on the same object: "assert" = cores / arrays are claimed afterwards as well,
+# "label" = that combination is only labelled (the cached arrays of the previous model survive load on the current tree)
+LOAD_AFTER_CORES = "assert"
+
+
+def prop_history(case, ctx):
+    import shutil
+    import tempfile
+    tmp = tempfile.mkdtemp(prefix="c13hist-", dir="/dev/shm" if os.path.isdir("/dev/shm") else None) \
+        if any(o["op"] == "load" for o in case["ops"]) else None
+    try:
+        _prop_history(case, ctx, tmp)
+    finally:
+        if tmp is not None:
+            shutil.rmtree(tmp, ignore_errors=True)
+
+
+def _prop_history(case, ctx, tmp):
+    import contextlib
+    import io
+    order, sets, ops = case["order"], case["sets"], case["ops"]
+    duck = case["gen"] != "int"
+    B = B_DUCK if duck else B_INT
+    data, refs = {}, {}
+
+    def get(j):
+        if j not in data:
+            data[j] = hist_data(sets, j)
+            refs[j] = ref_model(data[j][0], data[j][1], order)
+        return data[j]
+
+    def args(j):                                     # a new pair of argument objects for every call (nothing is shared)
+        I, y, (idt, ydt) = get(j)
+        Iarg, I2 = spell_I(I, idt)
+        yarg, y2 = spell_y(y, ydt)
+        assert np.array_equal(y2, y)
+        return Iarg, yarg
+
+    def new_gen():
+        return HistGen(case["gen"], case["gseed"]) if duck else int(case["gseed"])
+
+    def fresh(j):
+        g = new_gen()
+        return ctx.lib(teneva.ANOVA, *args(j), order, g), g
+
+    def quiet(fn, *a):
+        with contextlib.redirect_stdout(io.StringIO()):
+            return ctx.lib(fn, *a)
+
+    def num_eq(a, b):
+        return np.ndim(a) == 0 and np.ndim(b) == 0 and float(a) == float(b)
+
+    def same_state(A, F, step):
+        """Documented / public state of the object with a history against the freshly constructed one (no cached array read)."""
+        kw = {"step": step, "history": trail}
+        ctx.check(int(A.d) == int(F.d) and A.order == F.order, "history: ANOVA.d / order differ from a fresh object on the latest data", got=int(A.d), ref=int(F.d), **kw)
+        ctx.check(np.array_equal(A.shapes, F.shapes), "history: ANOVA.shapes differ from a fresh object on the latest data", got=A.shapes, ref=F.shapes, **kw)
+        ctx.check(len(A.domain) == len(F.domain) and all(np.array_equal(a, b) for a, b in zip(A.domain, F.domain)),
+                  "history: ANOVA.domain differs from a fresh object on the latest data", **kw)
+        ctx.check(A.dtype == F.dtype, "history: ANOVA.dtype differs from a fresh object on the latest data", got=str(A.dtype), ref=str(F.dtype), **kw)
+        ctx.check(num_eq(A.f0, F.f0) and num_eq(A.y_max, F.y_max) and num_eq(A.y_min, F.y_min),
+                  "history: ANOVA.f0 / y_max / y_min differ from a fresh object on the latest data", got=[float(A.f0), float(A.y_max), float(A.y_min)],
+                  ref=[float(F.f0), float(F.y_max), float(F.y_min)], **kw)
+        for name in ("f1", "f2"):
+            ta, tf = getattr(A, name), getattr(F, name)
+            ok = isinstance(ta, list) and len(ta) == len(tf)
+            for k in range(len(tf) if ok else 0):
+                ka, kf = list(ta[k].keys()), list(tf[k].keys())
+                ok = ok and ka == kf and all(float(ta[k][x]) == float(tf[k][x]) for x in kf)
+            ctx.check(ok, f"history: ANOVA.{name} differs from a fresh object constructed on the latest data", **kw)
+
+    cur = 0
+    gh = new_gen()
+    A = ctx.lib(teneva.ANOVA, *args(0), order, gh)
+    trail = ["init(0)"]
+    cores_since_start = False                        # a cores() / f1_arr / f2_arr access happened on A
+    cached = False                                   # ... since the last build
+    stale = False                                    # load() after such an access, no build since (see LOAD_AFTER_CORES)
+    rebuilds = 0
+    ctx.label(f"hist_order={order}", "hist_gen:" + case["gen"])
+    for t, op in enumerate(ops):
+        kind = op["op"]
+        if kind in ("build", "load"):
+            j = op["set"]
+            prev_n = refs[cur]["n"]
+            get(j)
+            if kind == "build":
+                ctx.lib(A.build, *args(j))
+                cached = stale = False
+            else:
+                path = os.path.join(tmp, f"m{t}.pickle")
+                S, _ = fresh(j)
+                if op.get("warm", t % 2 == 0):       # the saving object may itself have been asked for cores before
+                    ctx.lib(S.cores, 2, 0.0)
+                ctx.lib(S.save, path)
+                ctx.lib(A.load, path)
+                ctx.label("load_after_cores_or_arr" if cached else "load_before_any_cores")
+                if cached and LOAD_AFTER_CORES != "assert":
+                    stale = True
+            rebuilds += 1
+            trail.append(f"{kind}({j})")
+            nn = refs[j]["n"]
+            ctx.label("rebuild:" + ("same_data" if j == cur else sets[j].get("derived", "set0")),
+                      "rebuild:other_d" if len(nn) != len(prev_n) else ("rebuild:same_sizes" if nn == prev_n else "rebuild:other_sizes"),
+                      "rebuild_after_cores_or_arr" if cores_since_start else "rebuild_before_any_cores")
+            cur = j
+            F, gf = fresh(cur)
+            same_state(A, F, t)
+            check_f01(ctx, A, refs[cur])
+            continue
+        ref = refs[cur]
+        I, y, _ = data[cur]
+        d = len(ref["n"])
+        F, gf = fresh(cur)
+        if stale and kind in ("cores", "arr"):
+            ctx.label("not_asserted:cores_after_load_after_cores")
+            continue
+        if kind == "cores":
+            r, noise, rel = op["r"], op["noise"], op["rel"]
+            near = bool(op["near"]) and d == 2           # only_near is outside the property text for d >= 3 (ASSUMPTIONS); for d = 2 both spellings select the one pair
+            if rel is not None:
+                a = (r, noise, near, rel); kw = {}
+                noise = rel * float(np.max(np.abs(y))) * (1 + 4 * EPS)
+            elif op["spell"] == "kw":
+                a = (); kw = {"r": r, "noise": noise, "only_near": near}
+            elif op["spell"] == "default" and noise == 1e-10 and not near:
+                a = (r,); kw = {}
+            else:
+                a = (r, noise, near); kw = {}
+            trail.append(f"cores(r={r},noise={noise:g}{',near' if near else ''})")
+            if duck:
+                gh.reset(case["gseed"] + t); gf.reset(case["gseed"] + t)
+            Yh = ctx.lib(A.cores, *a, **kw)
+            cores_vs_ref(ctx, Yh, ref, order, r, B * noise, "ANOVA.cores after a history on the same object", step=t, history=trail)
+            if duck:
+                Yf = ctx.lib(F.cores, *a, **kw)
+                ctx.check(same_cores(Yh, Yf), "ANOVA.cores on an object with a history differs from the cores of a fresh object constructed on the "
+                          "latest data (identical arguments, identical generator stream)", step=t, history=trail,
+                          err=fro(dense(Yh) - dense(Yf)) if oracle.wellformed(Yh, ref["n"]) is None else None)
+                ctx.label("hist_cores_bit_identical")
+            cores_since_start = cached = True
+        elif kind == "call":
+            rng = np.random.default_rng(op["pseed"])
+            pos = np.column_stack([rng.integers(0, k, size=op["k"]) for k in ref["n"]])
+            P = np.column_stack([np.array(ref["dom"][k], dtype=np.int64)[pos[:, k]] for k in range(d)])
+            trail.append("call")
+            got = np.asarray(ctx.lib(A, P), dtype=float)
+            exp = np.asarray(ctx.lib(F, P), dtype=float)
+            ctx.check(got.shape == (len(P),) and np.array_equal(got, exp), "ANOVA(I) on an object with a history differs from a fresh object "
+                      "constructed on the latest data", step=t, history=trail, got=got, ref=exp)
+            idx = tuple(pos[:, k] for k in range(d))
+            cmp_table(ctx, got, ref["M"][idx], ref["tolM"][idx], "ANOVA(I) after a history differs from the recomputed model of the data last built",
+                      step=t, history=trail)
+            ctx.inner(len(P))
+        elif kind == "sample":
+            trail.append("sample")
+            if duck:
+                gh.reset(case["gseed"] + t); gf.reset(case["gseed"] + t)
+            sh = quiet(A.sample, None, 1e-10, bool(op["sq"]))
+            ctx.check(isinstance(sh, list) and len(sh) == d and all(int(x) in ref["dom"][k] for k, x in enumerate(sh)),
+                      "ANOVA.sample after a history: not one observed index value per mode of the data last built", got=repr(sh), step=t, history=trail)
+            if duck:
+                sf = quiet(F.sample, None, 1e-10, bool(op["sq"]))
+                ctx.check([int(x) for x in sh] == [int(x) for x in sf], "ANOVA.sample on an object with a history differs from a fresh object "
+                          "(identical generator stream)", got=repr(sh), ref=repr(sf), step=t, history=trail)
+        else:
+            trail.append("arr")
+            for name in ("f1_arr", "f2_arr"):
+                ah = ctx.lib(lambda: getattr(A, name)); af = ctx.lib(lambda: getattr(F, name))
+                ctx.check(len(ah) == len(af) and all(np.shape(u) == np.shape(v) and np.array_equal(u, v) for u, v in zip(ah, af)),
+                          f"ANOVA.{name} on an object with a history differs from a fresh object constructed on the latest data",
+                          step=t, history=trail)
+            for k in range(d):
+                ctx.check(np.shape(A.f1_arr[k]) == (ref["n"][k],) and bool(np.all(np.abs(A.f1_arr[k] - ref["f1"][k]) <= ref["t1"][k])),
+                          "ANOVA.f1_arr[k] is not the table of conditional means minus the mean of the data last built", k=k, step=t, history=trail)
+            cores_since_start = cached = True
+        same_state(A, F, t)
+    check_f01(ctx, A, refs[cur])
+    ctx.label(f"rebuilds={min(rebuilds, 3)}")
+    ctx.nontrivial(rebuilds >= 1)
+
+
+@st.composite
+def func_history_cases(draw, tier):
+    big = tier != "quick"
+    d = draw(st.integers(2, 4))
+    n = draw(st.integers(2, 8 if big else 6))
+    return {"d": d, "n": n, "m": draw(st.integers(1, 40 if big else 20)), "xseed": draw(gen.seeds),
+            "box": draw(st.sampled_from(["unit", "list"])), "a": [draw(gen.reals(-5, 5)) for _ in range(d)],
+            "w": [draw(st.sampled_from([0.5, 1.0, 2.0, 3.7])) for _ in range(d)],
+            "lamb": draw(st.sampled_from([None, 1e-7, 1e-3, 1.0, 0.0])), "xdt": draw(st.sampled_from(["f8", "f4", "list"])),
+            "ydt": draw(st.sampled_from(["f8", "f4", "list", "i8"])),
+            "ops": draw(st.lists(st.sampled_from(["coeffs", "default", None, None, 1e-8, 1e-4, 1e-2, 0.5]), min_size=2, max_size=6))}
+
+
+def prop_func_history(case, ctx):
+    """One ANOVA_func object asked repeatedly (coeffs, cores(e) for several e, in a drawn order): every answer equals the
+    answer of a fresh object / of the function on identical arguments, bit for bit (the computation is deterministic)."""
+    d, n, m = case["d"], case["n"], case["m"]
+    rng = np.random.default_rng(case["xseed"])
+    if case["box"] == "unit":
+        a = np.full(d, -1.0); b = np.full(d, 1.0); box = ()
+    else:
+        a = np.array(case["a"], dtype=float); b = a + np.array(case["w"], dtype=float); box = (a.tolist(), b.tolist())
+    X = a + (b - a) * rng.uniform(0.02, 0.98, size=(m, d))
+    y = rng.normal(size=m) * 2 + rng.normal()
+
+    def args():
+        Xa = X.tolist() if case["xdt"] == "list" else (X.astype(np.float32) if case["xdt"] == "f4" else X.copy())
+        return (Xa, spell_y(y, case["ydt"])[0], n) + tuple(list(v) for v in box)
+
+    kw = {} if case["lamb"] is None else {"lamb": case["lamb"]}
+    ctx.label("fh_box:" + case["box"], f"fh_lamb={case['lamb']}", "fh_X:" + case["xdt"], "fh_y:" + case["ydt"])
+    ctx.nontrivial(m >= 2 and len(set(map(str, case["ops"]))) >= 2)
+
+    def same_coeffs(c1, c2):
+        return (len(c1) == len(c2) == d + 1 and float(c1[0]) == float(c2[0])
+                and all(np.shape(u) == np.shape(v) and np.array_equal(u, v) for u, v in zip(c1[1:], c2[1:])))
+
+    C = ctx.lib(teneva.ANOVA_func, *args(), **kw)
+    first = None
+    trail = []
+    for t, op in enumerate(case["ops"]):
+        Fr = ctx.lib(teneva.ANOVA_func, *args(), **kw)
+        trail.append(str(op))
+        if op == "coeffs":
+            got = ctx.lib(lambda: C.coeffs); exp = ctx.lib(lambda: Fr.coeffs)
+            ctx.check(same_coeffs(got, exp), "ANOVA_func.coeffs read after a history of calls differs from a fresh object", step=t, history=trail)
+            continue
+        ea = () if op == "default" else (op,)
+        got = ctx.lib(C.cores, *ea)
+        exp = ctx.lib(Fr.cores, *ea)
+        fun = ctx.lib(teneva.anova_func, *args(), **kw, **({} if op == "default" else {"e": op}))
+        ctx.check(same_cores(got, exp), "ANOVA_func.cores(e) after a history of calls on the same object differs from a fresh object "
+                  "(identical arguments)", step=t, history=trail, e=op)
+        ctx.check(same_cores(exp, fun), "anova_func(...) and ANOVA_func(...).cores(e) differ on identical arguments", e=op)
+        ctx.label("fh_e=" + str(op))
+    got = ctx.lib(lambda: C.coeffs)
+    exp = ctx.lib(lambda: ctx.lib(teneva.ANOVA_func, *args(), **kw).coeffs)
+    ctx.check(same_coeffs(got, exp), "ANOVA_func.coeffs after a history of calls differs from a fresh object", history=trail)
+
+
 SUBCHECKS = [
     Sub("order1", prop_order1, strategy=order1_cases, quick=300, thorough=6000),
     Sub("order2", prop_order2, strategy=order2_cases, quick=250, thorough=5000),
     Sub("order2_wide", prop_order2, strategy=wide_cases, quick=100, thorough=600),
     Sub("additive", prop_additive, strategy=additive_cases, quick=150, thorough=3000),
     Sub("func", prop_func, strategy=func_cases, quick=200, thorough=4000),
+    Sub("history", prop_history, strategy=history_cases, quick=150, thorough=2500),
+    Sub("func_history", prop_func_history, strategy=func_history_cases, quick=60, thorough=800),
 ]
